@@ -4,8 +4,8 @@
    spec_table / si_of / config_key are the hand-pinned table of the 25 documented paths (Spec/SweepPaths.v); ideal_set is the
    hand-written "write this slot, touch nothing else" (Model/Sweep.v).  snell / csign are the two external kernels (Snell search,
    poling sign) — every theorem holds for all of them.
-   Known findings (Findings/C18_*.v, not imported here): the three *.frequency_thz paths use 1e12 rad/s instead of 2 pi 1e12 rad/s;
-   the poling-period path does nothing on an unpoled base.  The theorems below are stated for the complement. *)
+   Two defects found by this check were repaired in /repo (frequency_thz factor 2 pi: c033754; poling period on an unpoled base:
+   7f110fb); the theorems are stated at full strength for the repaired code. *)
 From Coq Require Import Reals List String.
 From SpdVerif Require Import Base.Rx Base.PolingBase Gen.Poling Gen.Sweep Spec.SweepPaths Model.Sweep
   Proofs.C18_table Proofs.C18_frame Proofs.C18_sweep Proofs.C18_all.
@@ -22,42 +22,45 @@ Proof. exact paths_same. Qed.
 Theorem C18_unknown : forall snell csign p, get_setter snell csign p = None <-> ~ In p (map fst spec_table).
 Proof. exact unknown_rejected. Qed.
 
-(* each setter other than the frequency ones is "write the named slot with the value converted from the path's unit" *)
-Theorem C18_setters_match : forall snell csign p sl u, In (p, (sl, u)) spec_table -> u <> UThz ->
-  exists f, get_setter snell csign p = Some f /\ forall s v, slot_pre sl s -> f s v = ideal_set snell csign sl (si_of u v) s.
+(* each of the 25 setters is "write the named slot with the value converted from the path's unit" (THz: 2 pi v 1e12 rad/s) *)
+Theorem C18_setters_match : forall snell csign p sl u, In (p, (sl, u)) spec_table ->
+  exists f, get_setter snell csign p = Some f /\ forall s v, f s v = ideal_set snell csign sl (si_of u v) s.
 Proof. exact setters_match. Qed.
 
-(* frame: for ALL 25 paths nothing but the named configuration field changes (external angle: on a beam with normalised azimuth;
-   poling period: on a poled base — slot_pre) *)
+(* frame: nothing but the named configuration field changes (external angle: on a beam with normalised azimuth) *)
 Theorem C18_frame : forall snell csign p sl u, In (p, (sl, u)) spec_table ->
-  exists f, get_setter snell csign p = Some f /\ forall s v, slot_pre sl s -> slot_guard sl s ->
+  exists f, get_setter snell csign p = Some f /\ forall s v, slot_guard sl s ->
     config_opaque (f s v) = config_opaque s /\
     (sl <> SPolingPeriod -> config_poling (f s v) = config_poling s) /\
     agree_except (config_key sl) (config_num (f s v)) (config_num s).
 Proof. exact frame_all. Qed.
 
 (* value: the named field shows the requested value, rounded to 4 decimals like every field of the view (the idler waist position is
-   not rounded by the view; an external angle shows the Snell-equivalent internal angle).  Guards: internal polar angle in (-180, 180],
-   azimuth in [0, 360), wavelength non-zero, Snell result in (-pi, pi].  Not for the frequency paths (finding F8). *)
-Theorem C18_value : forall snell csign p sl u, In (p, (sl, u)) spec_table -> u <> UThz -> sl <> SPolingPeriod ->
+   not rounded by the view; an external angle shows the Snell-equivalent internal angle; a frequency shows as the vacuum wavelength
+   c / (v 1e12) in nm).  Guards: internal polar angle in (-180, 180], azimuth in [0, 360), wavelength / frequency non-zero, Snell result
+   in (-pi, pi]. *)
+Theorem C18_value : forall snell csign p sl u, In (p, (sl, u)) spec_table -> sl <> SPolingPeriod ->
   exists f, get_setter snell csign p = Some f /\ forall s v, value_guard snell sl u v s ->
     assoc (config_key sl) (config_num (f s v)) = Some (expected_value snell sl u v s).
 Proof. exact value_all. Qed.
 
-(* poling period on a poled base: numeric and opaque views untouched; the view shows |v| um, the apodization is kept, the stored
-   magnitude is positive and the sign is the automatically derived one *)
+(* THz = 1e12 cycles per second: the stored angular frequency is 2 pi v 1e12 rad/s *)
+Theorem C18_frequency_thz : forall snell csign p b, In (p, (SBeamFrequency b, UThz)) spec_table ->
+  exists f, get_setter snell csign p = Some f /\ forall s v, b_frequency (get_beam b (f s v)) = 2 * PI * (v * 1e12).
+Proof. exact frequency_stored. Qed.
+
+(* poling period, on ANY base: numeric and opaque views untouched; the view shows |v| um; the stored magnitude is positive and the
+   sign is the automatically derived one; a poled base keeps its apodization, an unpoled one becomes poled without apodization *)
 Theorem C18_poling_period : forall snell csign,
   exists f, get_setter snell csign "periodic_poling.poling_period_um" = Some f /\
-    (forall s v, s_pp s <> Off -> config_num (f s v) = config_num s /\ config_opaque (f s v) = config_opaque s) /\
+    (forall s v, config_num (f s v) = config_num s /\ config_opaque (f s v) = config_opaque s) /\
     (forall p sg ap s v, s_pp s = On p sg ap -> v <> 0 ->
        config_poling (f s v) = Some (round4 (Rabs v), apod_to_config ap) /\
-       exists m, s_pp (f s v) = On m (csign (s_signal s) (s_pump s) (s_crystal_setup s)) ap /\ 0 < m /\ m = Rabs v * 1e-6).
+       exists m, s_pp (f s v) = On m (csign (s_signal s) (s_pump s) (s_crystal_setup s)) ap /\ 0 < m /\ m = Rabs v * 1e-6) /\
+    (forall s v, s_pp s = Off -> v <> 0 ->
+       config_poling (f s v) = Some (round4 (Rabs v), CfgOff) /\
+       exists m, s_pp (f s v) = On m (csign (s_signal s) (s_pump s) (s_crystal_setup s)) ApOff /\ 0 < m /\ m = Rabs v * 1e-6).
 Proof. exact poling_all. Qed.
-
-(* the frequency paths write the frequency slot and nothing else (WHICH value they write is finding F8's subject) *)
-Theorem C18_frequency_frame_partial : forall snell csign p sl, In (p, (sl, UThz)) spec_table ->
-  exists f, get_setter snell csign p = Some f /\ forall s v, exists x, f s v = ideal_set snell csign sl x s.
-Proof. exact thz_some. Qed.
 
 (* sweep: nx * ny setups; linear index j * nx + i is (value i of the first parameter, value j of the second): first parameter fastest *)
 Theorem C18_order : forall base setter1 setter2 x0 x1 nx y0 y1 ny,
@@ -85,13 +88,13 @@ Theorem C18_values : forall (A : Type) (jsi : spdc -> A) setups,
 Proof. exact (fun A jsi setups => conj (values_length jsi setups) (fun k d d' H => values_nth jsi setups k d d' H)). Qed.
 
 (* ---- non-vacuity ---- *)
-Example C18_nonvacuous_entry : In ("signal.wavelength_nm"%string, (SBeamWavelength BSignal, UNm)) spec_table /\ UNm <> UThz /\
-  SBeamWavelength BSignal <> SPolingPeriod.
-Proof. repeat split; try discriminate. cbn. tauto. Qed.
+Example C18_nonvacuous_entry : In ("signal.wavelength_nm"%string, (SBeamWavelength BSignal, UNm)) spec_table /\
+  In ("pump.frequency_thz"%string, (SBeamFrequency BPump, UThz)) spec_table /\ SBeamWavelength BSignal <> SPolingPeriod.
+Proof. repeat split; try discriminate; cbn; tauto. Qed.
 
 Example C18_nonvacuous_guards : forall snell s,
   value_guard snell (SBeamTheta BSignal) UDeg 2.5 s /\ value_guard snell (SBeamPhi BIdler) UDeg 180 s /\
-  value_guard snell (SBeamWavelength BPump) UNm 775 s /\ slot_guard SCrystalTheta s.
+  value_guard snell (SBeamWavelength BPump) UNm 775 s /\ value_guard snell (SBeamFrequency BSignal) UThz 200 s /\ slot_guard SCrystalTheta s.
 Proof. intros. cbn. repeat split; Lra.lra. Qed.
 
 Example C18_nonvacuous_beam : beam_ok (mk_beam (mk_beam_waist 1e-4 1e-4) 1.2e15 0%nat 0 0).
@@ -103,7 +106,7 @@ Print Assumptions C18_setters_match.
 Print Assumptions C18_frame.
 Print Assumptions C18_value.
 Print Assumptions C18_poling_period.
-Print Assumptions C18_frequency_frame_partial.
+Print Assumptions C18_frequency_thz.
 Print Assumptions C18_order.
 Print Assumptions C18_grid.
 Print Assumptions C18_values.
